@@ -113,6 +113,64 @@ Fixpoint groups_ok_b (tol : Q) (ncols : nat) (rows : list srow) : bool :=
      end) && groups_ok_b tol ncols rest
   end.
 
+(* ---- the same law when a mapping (-m) folds commodities into a group that keeps other members: the group's
+   row then is the sum of its member rows PLUS the commodities folded into the group itself.  Those are not rows
+   of the mapped table; they are read off the table of the same command without the mapping ([leaves]: its leaf
+   rows with their paths), through Model/Weights.map_path. *)
+
+(* the path of every row (labels of the enclosing groups, read off the indentation) *)
+Fixpoint row_paths (prev : list str) (rows : list srow) : list (list str * srow) :=
+  match rows with
+  | [] => []
+  | r :: rest =>
+    let p := firstn (Z.to_nat (srow_depth r)) prev ++ [srow_label r] in
+    (p, r) :: row_paths p rest
+  end.
+
+Fixpoint leaf_rows (prs : list (list str * srow)) : list (list str * srow) :=
+  match prs with
+  | [] => []
+  | pr :: rest =>
+    match members (srow_depth (snd pr)) (map snd rest) with
+    | [] => pr :: leaf_rows rest
+    | _ => leaf_rows rest
+    end
+  end.
+
+Definition path_eqb (a b : list str) : bool := path_prefix a b && path_prefix b a.
+
+Definition mapped_to (m : list rule) (p : list str) (leaf : list str * srow) : bool :=
+  match map_path m (fst leaf) with
+  | Some q => path_eqb q p
+  | None => false
+  end.
+
+(* the weight folded into the row at path [p] itself *)
+Definition own_sum (m : list rule) (leaves : list (list str * srow)) (p : list str) (j : nat) : Q :=
+  qsum (map (fun lf => if mapped_to m p lf then scol j (snd lf) else 0) leaves).
+
+Fixpoint groups_own_ok_b (tol : Q) (ncols : nat) (m : list rule) (leaves : list (list str * srow))
+         (prs : list (list str * srow)) : bool :=
+  match prs with
+  | [] => true
+  | pr :: rest =>
+    let r := snd pr in
+    let ms := members (srow_depth r) (map snd rest) in
+    forallb (fun j => negb (forallb (scol_finite j) (r :: ms) && forallb (fun lf => scol_finite j (snd lf)) leaves)
+                      || close_b tol (scol j r) (own_sum m leaves (fst pr) j + col_sum j ms))
+            (seq 0 ncols)
+    && groups_own_ok_b tol ncols m leaves rest
+  end.
+
+(* every commodity of the unmapped table has a row to be folded into *)
+Definition leaves_placed_b (m : list rule) (leaves : list (list str * srow)) (prs : list (list str * srow)) : bool :=
+  forallb (fun lf => existsb (fun pr => mapped_to m (fst pr) lf) prs) leaves.
+
+Definition mapping_law_b (tol : Q) (ncols : nat) (m : list rule) (unmapped mapped : list srow) : bool :=
+  let leaves := leaf_rows (row_paths [] unmapped) in
+  let prs := row_paths [] mapped in
+  leaves_placed_b m leaves prs && groups_own_ok_b tol ncols m leaves prs.
+
 (* the top level sums to 100% in every column that is finite *)
 Definition top_ok_b (tol : Q) (ncols : nat) (rows : list srow) : bool :=
   let tops := filter (fun r => (srow_depth r =? 0)%Z) rows in
